@@ -106,6 +106,18 @@ CHECKS = {
         design="3/C09",
         note="Trusted base: ninja's mtime/log semantics, the event log written by the shims; edits advance mtime; bytes comparable across directories (C08).",
     ),
+    "C17": dict(
+        level="exploration",
+        technique="runtime monitoring: negative workloads through the real CLI (exit status + presence/bytes/mtime of the output font) and through _generate_color_font (exception required); accepted inputs are handed to the reachability oracle",
+        text="One defect from each class of the statement (duplicate sequence in both naming schemes / hex case, malformed and truncated XML, unknown colour, pattern paint, missing gradient target, unknown spreadMethod, palette index conflict, masters with different source sets, oversize CBDT bitmap) is planted at a random position among 0-4 valid sources, in each applicable format, into a fresh build directory or one that already holds a font; the command must exit non-zero and the output font must be absent or byte- and mtime-identical.",
+        design="3/C17",
+    ),
+    "C20": dict(
+        level="exploration",
+        technique="runtime monitoring: per-option observable map read from fonts written by the real CLI over the full (option, value, way) matrix, and byte equality of joint vs separate builds for multi-config invocations",
+        text="Every FontConfig option with a user-visible observable is given by flag, by file, by both with different values (flag must win) and not at all (default), on small source sets in the format family it applies to; the observable is read from the font the CLI wrote. For every listed option pair two TOML configurations sharing sources are built in one invocation and each font must equal, byte for byte, the font its configuration produces alone. The whole matrix (185 cases, ~210 CLI builds) is enumerated on every run.",
+        design="3/C20",
+    ),
 }
 
 NOT_YET = {}
